@@ -353,3 +353,139 @@ invariant(c, 2, "ins", lambda it, i, bb: And(
         _stack_read_of_literal(current().ex.list_get(it, z3.Int("sk"), current().st).term)))))), label="none_so_far")
 must_fail(c, "always", lambda result: result)
 must_fail(c, "never", lambda result: Not(result))
+
+
+# ---- group mode (C13): what a contract checks on its own / another transaction, over its leaf blocks ---------------------------
+import contracts.engine as _eng   # noqa: E402  (leaf_block_global, LEAF)
+FIELD_TYPES[("BlockTransactionContext", "_abs_context")] = T.Opt(T.List(CTX))
+FIELD_TYPES[("BlockTransactionContext", "_relative_context")] = T.Opt(T.Dict(T.Int, CTX))
+
+
+def abs_none(c_):
+    return IsNone(c_._abs_context) if _sym(c_) else c_._abs_context is None
+
+
+def abs_list(c_):
+    if _sym(c_):
+        from pyvc.values import VList, VUnion
+        u = c_._abs_context
+        return next(v for _, v in u.alts if isinstance(v, VList)) if isinstance(u, VUnion) else u
+    return c_._abs_context
+
+
+def rel_none(c_):
+    return IsNone(c_._relative_context) if _sym(c_) else c_._relative_context is None
+
+
+def rel_dict(c_):
+    if _sym(c_):
+        from pyvc.values import VDict, VUnion
+        u = c_._relative_context
+        return next(v for _, v in u.alts if isinstance(v, VDict)) if isinstance(u, VUnion) else u
+    return c_._relative_context
+
+
+def rel_get(c_, offset):
+    d = rel_dict(c_)
+    if _sym(c_):
+        ctx = current()
+        v, st2 = ctx.ex.dict_read(d, offset, ctx.st)
+        return v
+    return d[offset]
+
+
+AC = "tealer/teal/context/block_transaction_context.py::BlockTransactionContext.absolute_context"
+c = contract(AC, params={"self": CTX, "txn_index": T.Int}, returns=CTX, tags=["C10", "C13"],
+             raises=[("TealerException", lambda self, txn_index: Or(abs_none(self), txn_index >= 16))])
+requires(c, "position", lambda txn_index: txn_index >= 0)
+requires(c, "wf", lambda self: Or(abs_none(self), Eq(Len(abs_list(self)), 16)))
+ensures(c, "lookup", lambda self, txn_index, result: And(Not(abs_none(self)), txn_index < 16, Eq(result, abs_list(self)[txn_index])))
+RC = "tealer/teal/context/block_transaction_context.py::BlockTransactionContext.relative_context"
+c = contract(RC, params={"self": CTX, "offset": T.Int}, returns=CTX, tags=["C10", "C13"],
+             raises=[("TealerException", lambda self, offset: Or(rel_none(self), Not(In(offset, rel_dict(self)))))])
+ensures(c, "lookup", lambda self, offset, result: And(Not(rel_none(self)), In(offset, rel_dict(self)), Eq(result, rel_get(self, offset))))
+
+
+def _leaf(block):
+    return VBool(_eng.LEAF(block.term)) if _sym(block) else __import__("tealer.utils.analyses", fromlist=["x"]).leaf_block_global(block)
+
+
+def _blocks(function):
+    return function._blocks
+
+
+def _all_leaf_blocks(function, fn):
+    """forall blocks b of the function that are leaves of the global graph: fn(b)"""
+    return ForallIdx(_blocks(function), lambda j, b: Implies(_leaf(b), lambda: fn(b)))
+
+
+def _vib_exact(block, function, checks_field, absolute_index):
+    """validated_in_block's exact clause, as a term about `block`"""
+    return Or(_cf(checks_field, ctx_of(function, block)),
+              lambda: If(IsNone(absolute_index),
+                         lambda: ForallIdx(ctx_of(function, block).group_indices,
+                                           lambda j, i: _cf(checks_field, gtxn_list(ctx_of(function, block))[i])),
+                         lambda: _cf(checks_field, gtxn_list(ctx_of(function, block))[AsInt(absolute_index)])))
+
+
+def _fn_wf(function, need):
+    """every block of the function has a context, and every stored context has the representation invariant the callee needs"""
+    if _sym(function):
+        ctx = current()
+        bt = z3.Int(fresh_name("wb"))
+        b = VRef(bt, ctx.ex.ct.cls("BasicBlock"), ctx.ex)
+        d = function._transaction_contexts
+        sel = z3.Select(ctx.ex.dict_map(d, ctx.st), bt)
+        nd = need(ctx_of(function, b))
+        body = z3.Implies(z3.Select(ctx.ex.dict_dom(d, ctx.st), bt), nd.term if isinstance(nd, V) else z3.BoolVal(bool(nd)))
+        return And(ForallIdx(_blocks(function), lambda j, b_: has_ctx(function, b_)),
+                   VBool(z3.ForAll([bt], body, patterns=[sel])))
+    return all(b in function._transaction_contexts and need(function._transaction_contexts[b]) for b in function._blocks)
+
+
+c = contract(D + "utils.py::contract_checks_its_field",
+             params={"function": T.Ref("Function"), "checks_field": CF, "absolute_index": T.Opt(T.Int)}, returns=T.Bool,
+             tags=["C13", "C01"], raises=[("TealerException", None)])
+c.seq_filter = True
+requires(c, "contexts", lambda function: _fn_wf(function, wf_ctx))
+requires(c, "position", lambda absolute_index: Implies(Not(IsNone(absolute_index)), lambda: AsInt(absolute_index) >= 0))
+ensures(c, "all_leaves_validate", lambda function, checks_field, absolute_index, result: Iff(result, _all_leaf_blocks(
+    function, lambda b: _vib_exact(b, function, checks_field, absolute_index))),
+    note="true iff every leaf block of the global graph validates the field (own view, or the view at the given / at every possible own index)")
+invariant(c, 1, "block", lambda it, i, function, checks_field, absolute_index: And(
+    i <= Len(it), ForallIdx(it, lambda j, b: _vib_exact(b, function, checks_field, absolute_index), upto=i)), label="validated_so_far")
+
+c = contract(D + "utils.py::contract_checks_txn_at_absolute_index",
+             params={"function": T.Ref("Function"), "checks_field": CF, "absolute_index": T.Int}, returns=T.Bool,
+             tags=["C13"], raises=[("TealerException", None)])
+c.seq_filter = True
+requires(c, "contexts", lambda function: _fn_wf(function, lambda x: Or(abs_none(x), Eq(Len(abs_list(x)), 16))))
+requires(c, "position", lambda absolute_index: absolute_index >= 0)
+ensures(c, "all_leaves_check_it", lambda function, checks_field, absolute_index, result: Iff(result, _all_leaf_blocks(
+    function, lambda b: _cf(checks_field, abs_list(ctx_of(function, b))[absolute_index]))),
+    note="true iff at every leaf block the information about the transaction at that absolute index validates the field")
+invariant(c, 1, "block", lambda it, i, function, checks_field, absolute_index: And(
+    i <= Len(it), ForallIdx(it, lambda j, b: _cf(checks_field, abs_list(ctx_of(function, b))[absolute_index]), upto=i)), label="checked_so_far")
+
+c = contract(D + "utils.py::contract_checks_using_relative_index",
+             params={"function": T.Ref("Function"), "checks_field": CF, "offset": T.Int}, returns=T.Bool,
+             tags=["C13"], raises=[("TealerException", None)])
+c.seq_filter = True
+requires(c, "contexts", lambda function: _fn_wf(function, lambda x: True))
+ensures(c, "all_leaves_check_it", lambda function, checks_field, offset, result: Iff(result, _all_leaf_blocks(
+    function, lambda b: _cf(checks_field, rel_get(ctx_of(function, b), offset)))),
+    note="true iff at every leaf block the information about the transaction at that offset validates the field")
+invariant(c, 1, "block", lambda it, i, function, checks_field, offset: And(
+    i <= Len(it), ForallIdx(it, lambda j, b: _cf(checks_field, rel_get(ctx_of(function, b), offset)), upto=i)), label="checked_so_far")
+
+
+
+def _canaries():
+    from pyvc.dsl import REGISTRY
+    for _t in ("contract_checks_its_field", "contract_checks_txn_at_absolute_index", "contract_checks_using_relative_index"):
+        _c = REGISTRY[D + "utils.py::" + _t]
+        must_fail(_c, "always", lambda result: result)
+        must_fail(_c, "never", lambda result: Not(result))
+
+
+_canaries()
